@@ -471,6 +471,32 @@ def idn_domains(tier, rng, mdl):
     return out
 
 
+def invalid_idn_pairs(tier, rng):
+    """U-labels that violate IDNA2008 in one place (disallowed symbol, unassigned code point, CONTEXTJ/CONTEXTO without context,
+    leading combining mark, mixed-direction label) together with their Punycode spelling computed here.  libidn2 never produces
+    such A-labels itself, so only a harness that encodes them can ask whether the *A spelling* is refused as well."""
+    bad = ["\u2615", "\u2665", "\U0001f600", "\u200d", "\u200c", "\u00b7", "\u0375", "\u30fb", "\u0301", "\u0640", "\u2028", "\ufffd",
+           "\U0001fae0", "\U0001fae8", "\u0378", "\u0530", "\U000e0001", "\u2060", "\u00a0", "\u3000", "\u1806", "\ua9c0"]
+    hosts = ["a", "ab", "x1", "mail"]
+    out = []
+    for b in bad:
+        for h in hosts[:2 if tier == "quick" else 4]:
+            for u in (h + b, b + h, h + b + h, h[:1] + b + "-" + h):
+                try:
+                    a = to_alabel(u)
+                except Exception:
+                    continue
+                if len(a) > 63:
+                    continue
+                for tld in (b"com", b"xn--p1ai"):
+                    out.append((u.encode("utf-8") + b"." + tld, a + b"." + tld))
+                    out.append((b"x." + u.encode("utf-8") + b"." + tld, b"x." + a + b"." + tld))
+    # mixed direction inside one label (Bidi rule), digits first in an RTL label
+    for u in ("a\u05d0", "\u05d0a", "1\u05d0", "\u05d0\u0661a", "\u0627a\u0628"):
+        out.append((u.encode("utf-8") + b".com", to_alabel(u) + b".com"))
+    return out
+
+
 NEGATIVE_IDN = [b"\xff.com", b"a\xc3.com", b"\xc0\x80.com", b"\xed\xa0\x80.ru", "☕.de".encode(), "I♥NY.de".encode(), "😀.com".encode(),
                 "-é.com".encode(), "é-.com".encode(), "ab--é.com".encode(), ("é" * 70 + ".com").encode(), "a‍b.com".encode(),
                 "́a.com".encode(), "a.ـ.com".encode(), "xn--" .encode() + b"a" * 70 + b".com"]
